@@ -41,7 +41,7 @@ pub const HEAP_BUDGET: usize = 512 << 20;
 /// to the step clock) long before the wall-clock watchdog. Thread CPU time, not wall time, so a
 /// loaded machine does not matter; two orders of magnitude above the fault-free maxima recorded
 /// in evidence. The measured value never enters the event log.
-pub const CPU_BASE_US: u64 = 2_500_000;
+pub const CPU_BASE_US: u64 = 10_000_000;
 pub const CPU_PER_BYTE_US: u64 = 1;
 
 #[derive(Clone, Debug)]
